@@ -40,10 +40,10 @@ pub fn conv_case<T: Sc>(rng: &mut Rng, idx: usize) -> (FitCase<T>, Vec<T>, DMatr
     let fam = if idx % 240 == 112 { &big } else { &fams[idx % fams.len()] };
     let p = fam.ranges.len();
     let n = if idx % 240 == 112 { 1 } else { rng.range(fam.nmin, fam.nmax) };
-    // one case per 240: a quarter of a million samples (single precision, see `stream`): anything that
+    // one case per 240: a million samples (single precision, see `stream`): anything that
     // scales a tolerance or threshold with the NUMBER of samples shows here
     let huge = idx % 240 == 112;
-    let n = if huge { 1usize << 18 } else { n };
+    let n = if huge { 1usize << 20 } else { n };
     let recipe = Recipe {
         names: NAMES[..p].iter().map(|s| s.to_string()).collect(),
         fns: fam.fns.iter().map(|(k, ps)| FnSpec { kind: *k, params: ps.clone() }).collect(),
